@@ -59,6 +59,14 @@ from processscheduler.util import (
 )
 
 
+def _buffer_quantity(task, quantity):
+    """The quantity a task loads/unloads: an unscheduled optional task
+    does not change the buffer level."""
+    if task.optional:
+        return z3.If(task._scheduled, quantity, 0)
+    return quantity
+
+
 #
 # Solver class definition
 #
@@ -319,7 +327,7 @@ class SchedulingSolver(BaseModelWithJson):
                         x,
                         z3.If(
                             x == t._start,
-                            f(x) == -buffer._unloading_tasks[t],
+                            f(x) == _buffer_quantity(t, -buffer._unloading_tasks[t]),
                             f(x) == 0,
                         ),
                     )
@@ -336,7 +344,9 @@ class SchedulingSolver(BaseModelWithJson):
                     asst = z3.ForAll(
                         x,
                         z3.If(
-                            x == t._end, f(x) == +buffer._loading_tasks[t], f(x) == 0
+                            x == t._end,
+                            f(x) == _buffer_quantity(t, +buffer._loading_tasks[t]),
+                            f(x) == 0,
                         ),
                     )
                     self.append_z3_assertion(asst)
@@ -372,13 +382,19 @@ class SchedulingSolver(BaseModelWithJson):
                     self.append_z3_assertion(
                         buffer_mapping
                         == z3.Store(
-                            buffer_mapping, t._start, -buffer._unloading_tasks[t]
+                            buffer_mapping,
+                            t._start,
+                            _buffer_quantity(t, -buffer._unloading_tasks[t]),
                         )
                     )
                 for t in buffer._loading_tasks:
                     self.append_z3_assertion(
                         buffer_mapping
-                        == z3.Store(buffer_mapping, t._end, +buffer._loading_tasks[t])
+                        == z3.Store(
+                            buffer_mapping,
+                            t._end,
+                            _buffer_quantity(t, +buffer._loading_tasks[t]),
+                        )
                     )
                 # and, for the other, the buffer level i+1 is the buffer level i +/- the buffer change
                 for i in range(len(buffer._buffer_levels) - 1):
